@@ -5,7 +5,7 @@ import re
 import time
 
 HERE = os.path.dirname(os.path.dirname(os.path.abspath(__file__)))
-EVIDENCE_DIR = os.path.join(HERE, "evidence")
+EVIDENCE_DIR = os.environ.get("AVT_EVIDENCE_DIR") or os.path.join(HERE, "evidence")
 KNOWN_FILE = os.path.join(HERE, "known_findings.json")
 
 
@@ -103,7 +103,11 @@ class Ctx:
         lines = []
         for v, k in kf:
             lines.append("KNOWN-FINDING: property=%s %s [%s]" % (self.prop, k.get("what", v["message"]), v["key"]))
+        shown = 0
         for v in new:
+            shown += 1
+            if shown > 15:
+                continue
             fn = re.sub(r"[^A-Za-z0-9_.-]+", "_", v["key"])[:150] + ".json"
             rp = os.path.join(EVIDENCE_DIR, "violations", fn)
             with open(rp, "w") as f:
@@ -117,6 +121,8 @@ class Ctx:
             if v.get("detail"):
                 for dl in str(v["detail"]).splitlines()[:40]:
                     lines.append("    | " + dl)
+        if len(new) > 15:
+            lines.append("  ... and %d more violation(s) of %s (keys: %s ...)" % (len(new) - 15, self.prop, ", ".join(v["key"] for v in new[15:20])))
         wall = time.time() - self.t0
         evaluations = sum(self.rule_counts.values())
         ev = {
